@@ -74,6 +74,7 @@ struct Found {
 struct CaseOut {
   std::vector<Found> found;  // in-scope violations and out-of-scope observations
   uint64_t hash = 0;         // combined event hash
+  uint64_t obs = 0;          // combined observation hash
   uint64_t plan_hash = 0;
   long evaluations = 0;
   long nontrivial = 0;
@@ -130,6 +131,7 @@ void run_one(const Plan &p, CaseOut &out, bool trace, RunResult *keep = nullptr)
   RunResult r = run_plan(p, o);
   out.evaluations++;
   out.hash = mix64(out.hash, r.event_hash);
+  out.obs = mix64(out.obs, r.obs_hash);
   merge_stats(out.st, r.st);
   bool nontriv = r.nontrivial;
   if (p.prop == "C17") nontriv = r.st.faults_fired > 0 && (r.st.asm_checked + r.st.bin_files) > 0;
@@ -254,7 +256,12 @@ int run_canaries(const std::string &prop) {
       return;
     }
     total++;
-    bool ok = r.v.violated && r.v.cls == cls;
+    // several classes may be acceptable ("a|b"): how a stale mapping address surfaces depends on what the library does next
+    bool ok = false;
+    if (r.v.violated) {
+      std::string want = std::string("|") + cls + "|";
+      ok = want.find("|" + r.v.cls + "|") != std::string::npos;
+    }
     if (!ok) {
       failed++;
       fprintf(real_out(), "CANARY-FAILED %s: expected class %s, got %s (%s)\n", name, cls, r.v.violated ? r.v.cls.c_str() : "no violation",
@@ -634,7 +641,7 @@ int cmd_run(const Args &a) {
     merge_stats(total, co.st);
     for (uint64_t h : co.nontrivial_hashes) hashes.push_back(h);
     if (!only.empty() || (audit_every > 0 && run % audit_every == 0))
-      fprintf(out, "H %ld %016llx %016llx\n", run, (unsigned long long)co.plan_hash, (unsigned long long)co.hash);
+      fprintf(out, "H %ld %016llx %016llx %016llx\n", run, (unsigned long long)co.plan_hash, (unsigned long long)co.hash, (unsigned long long)co.obs);
     if (samples.size() < 2 && co.nontrivial > 0 && (run % 97 == 0 || i == 0)) {
       Plan sp = generate(gp);
       samples.push_back(plan_to_json(sp));
@@ -731,8 +738,83 @@ bool load_plan(const std::string &path, Plan &p) {
   return true;
 }
 
+// A violation that needs what earlier cases left behind in the process (library-internal static state
+// surviving instances) cannot be replayed from one plan.  Its replay file lists the run indices to
+// execute in order, in one process, exactly as the discovering worker did.
+int replay_sequence(const Json &j, const Args &a) {
+  GenParams gp;
+  gp.prop = j.str("property");
+  gp.seed = (uint64_t)j.num("seed", 1);
+  gp.thorough = j.str("tier") == "thorough";
+  gp.variant = j.str("variant");
+  std::string why;
+  corpus_init(&why);
+  g_replay_mode = true;
+  FILE *out = real_out();
+  const Json *runs = j.get("runs");
+  if (!runs) return 2;
+  if (j.get("expect") && j.get("expect")->str("class") == "carryover" && !runs->a.empty()) {
+    // the last case alone (forked child of this still pristine process) versus the same case after its predecessors
+    long last = (long)runs->a.back().n;
+    int fds[2];
+    if (pipe(fds) != 0) return 2;
+    fflush(out);
+    pid_t pid = fork();
+    if (pid == 0) {
+      gp.run = last;
+      CaseOut co;
+      run_case(gp, co);
+      unsigned long long h = co.obs;
+      if (__real_write(fds[1], &h, sizeof h) < 0) {}
+      _exit(0);
+    }
+    close(fds[1]);
+    unsigned long long alone = 0;
+    bool got = read(fds[0], &alone, sizeof alone) == (ssize_t)sizeof alone;
+    close(fds[0]);
+    int st = 0;
+    waitpid(pid, &st, 0);
+    unsigned long long after = 0;
+    for (const Json &r : runs->a) {
+      gp.run = (long)r.n;
+      g_cur_run = gp.run;
+      CaseOut co;
+      run_case(gp, co);
+      after = co.obs;
+    }
+    if (!got) return 2;
+    if (alone != after) {
+      fprintf(out, "REPLAY violation property=%s class=carryover at run %ld\n  what the callers of case %ld observe (return values, offsets, bytes) depends on the %zu cases executed "
+              "before it in the same process: observation hash %016llx alone, %016llx after them\n", gp.prop.c_str(), last, last, runs->a.size() - 1, alone, after);
+      return 1;
+    }
+    fprintf(out, "REPLAY no violation (observations of case %ld are the same alone and after its predecessors)\n", last);
+    return 0;
+  }
+  fprintf(out, "replaying a sequence of %zu cases in one process (the violation depends on state left behind by earlier cases)\n", runs->a.size());
+  for (const Json &r : runs->a) {
+    gp.run = (long)r.n;
+    g_cur_run = gp.run;
+    CaseOut co;
+    run_case(gp, co);
+    for (const Found &f : co.found)
+      if (f.v.in_scope) {
+        fprintf(out, "REPLAY violation property=%s class=%s at run %ld task=%d op=%d (%s)\n  %s\n", gp.prop.c_str(), f.v.cls.c_str(), gp.run, f.v.task, f.v.op,
+                f.v.op_kind.c_str(), f.v.detail.c_str());
+        if (a.has("print-plan")) fprintf(out, "%s\n", plan_to_json(f.plan).dump().c_str());
+        return 1;
+      }
+  }
+  fprintf(out, "REPLAY no violation\n");
+  return 0;
+}
+
 int cmd_replay(const Args &a) {
   if (a.pos.empty()) return 2;
+  {
+    Json j;
+    if (Json::parse(read_file(a.pos[0]), j) && j.str("kind") == "sequence") return replay_sequence(j, a);
+  }
   Plan p;
   if (!load_plan(a.pos[0], p)) return 2;
   std::string why;
@@ -757,6 +839,17 @@ int cmd_replay(const Args &a) {
   }
   fprintf(out, "REPLAY violation property=%s class=%s task=%d op=%d (%s) in_scope=%d event_hash=%s\n  %s\n", p.prop.c_str(), r.v.cls.c_str(), r.v.task,
           r.v.op, r.v.op_kind.c_str(), (int)r.v.in_scope, hb, r.v.detail.c_str());
+  if (a.has("update-expect")) {
+    // adopt what a fresh process observes as the expectation (used by the driver when the minimised plan
+    // violates the property in a different way in a fresh process than inside the shrinker)
+    p.expect = expect_json(r.v, r.event_hash);
+    FILE *f = fopen(a.pos[0].c_str(), "w");
+    if (f) {
+      fprintf(f, "%s\n", plan_to_json(p).dump().c_str());
+      fclose(f);
+    }
+    return r.v.in_scope ? 1 : 4;
+  }
   if (!want_cls.empty() && (want_cls != r.v.cls || want_kind != r.v.op_kind)) {
     fprintf(out, "REPLAY differs from the recorded expectation class=%s op_kind=%s\n", want_cls.c_str(), want_kind.c_str());
     return 4;
